@@ -670,6 +670,73 @@ fn registry(case: &Value) {
         reg.use_actor(find(id.as_str().unwrap()).as_ref());
     }
     let target = find(case["target"].as_str().unwrap());
+    if case["level"] == "context" {
+        // the same bookkeeping as the heuristics see it: RegistryContext on top of the registry
+        use vrp_core::construction::features::create_minimize_tours_feature;
+        let goal = GoalContextBuilder::with_features(&[create_minimize_tours_feature("f").unwrap()]).unwrap().build().unwrap();
+        let mut rctx = RegistryContext::new(&goal, reg);
+        let route_id = |rc: &RouteContext| id_of(&rc.route().actor);
+        let mut results: Vec<bool> = vec![];
+        let mut routes: Vec<Option<String>> = vec![];
+        let mut copy_available: Option<Vec<String>> = None;
+        let mut slice_routes: Option<Vec<String>> = None;
+        let avail_of = |r: &RegistryContext| {
+            let mut ids: Vec<String> = r.resources().available().map(|a| id_of(&a)).collect();
+            ids.sort();
+            ids
+        };
+        match case["op"].as_str().unwrap() {
+            "get_route" => {
+                let r = rctx.get_route(&target);
+                results.push(r.is_some());
+                routes.push(r.as_ref().map(route_id));
+            }
+            "get-twice" => {
+                for _ in 0..2 {
+                    let r = rctx.get_route(&target);
+                    results.push(r.is_some());
+                    routes.push(r.as_ref().map(route_id));
+                }
+            }
+            "use_route" => {
+                let rc = RouteContext::new(target.clone());
+                results.push(rctx.use_route(&rc));
+            }
+            "free_route" => {
+                let rc = RouteContext::new(target.clone());
+                results.push(rctx.free_route(rc));
+            }
+            "slice" => {
+                let keep: Vec<String> = case["keep"].as_array().unwrap().iter().map(|k| k.as_str().unwrap().to_string()).collect();
+                let mut slice = rctx.deep_slice(|actor| keep.contains(actor.vehicle.dimens.get_vehicle_id().unwrap()));
+                // which actors the slice can serve at all: ask for every actor on a further copy
+                let mut probe = slice.deep_copy();
+                let mut served: Vec<String> = fleet.actors.iter().filter(|a| {
+                    probe.free_route(RouteContext::new((*a).clone()));
+                    probe.get_route(a).is_some()
+                }).map(id_of).collect();
+                served.sort();
+                slice_routes = Some(served);
+                let r = slice.get_route(&target);
+                results.push(r.is_some());
+                routes.push(r.as_ref().map(route_id));
+                copy_available = Some(avail_of(&slice));
+            }
+            "copy" => {
+                let mut copy = rctx.deep_copy();
+                let r = copy.get_route(&target);
+                results.push(r.is_some());
+                routes.push(r.as_ref().map(route_id));
+                copy_available = Some(avail_of(&copy));
+            }
+            _ => {}
+        }
+        let available = avail_of(&rctx);
+        let next: Vec<Vec<String>> = (0..64).map(|_| rctx.next_route().map(route_id).collect()).collect();
+        println!("{}", serde_json::to_string(&json!({"results": results, "routes": routes, "available": available, "next": next,
+            "copy_available": copy_available, "slice_all": slice_routes})).unwrap());
+        return;
+    }
     let mut results = vec![];
     let mut copy_available: Option<Vec<String>> = None;
     let mut slice_all: Option<Vec<String>> = None;
